@@ -438,6 +438,8 @@ def eval_scenario(args):
             # database, so "keep" is what C19 demands, not "reject"
             exp = "keep"
             res["truncation_still_a_database"] = True
+        if exp == "upgrade" and sc["prop"] == "C19":
+            exp = "skip"          # an upgradable older database is C20's subject
         res["expect"] = exp
         if exp == "skip":
             return res
@@ -652,6 +654,7 @@ def run(prop_id, tier="quick", seed=1, only=None):
     finally:
         shutil.rmtree(root, ignore_errors=True)
     violations, kill_points, nontrivial, samples, errors = [], {}, set(), [], []
+    n_violations = 0
     hist = {}
     for r in results:
         sc = r["sc"]
@@ -659,7 +662,12 @@ def run(prop_id, tier="quick", seed=1, only=None):
             errors.append({"scenario": sc, "error": r["error"]})
             continue
         hist[r.get("expect")] = hist.get(r.get("expect"), 0) + 1
+        seen_here = {}
         for v in r["violations"]:
+            n_violations += 1
+            seen_here[v["what"]] = seen_here.get(v["what"], 0) + 1
+            if seen_here[v["what"]] > 3 or len(violations) >= 300:
+                continue      # the same failure at many kill points: three witnesses are kept
             violations.append({"what": "%s: %s [%s]" % (prop_id, v["what"], v["where"]),
                                "replay": {"prop": prop_id, "tier": tier, "seed": seed, "index": sc["index"],
                                           "event": v.get("event"), "scenario": sc,
@@ -685,7 +693,7 @@ def run(prop_id, tier="quick", seed=1, only=None):
         "kill_points": sorted(kill_points),
         "stats": {
             "prop": prop_id, "tier": tier, "seed": seed, "repo_src": REPO_SRC,
-            "scenarios": len(results), "scenarios_skipped_by_time_budget": skipped_budget,
+            "scenarios": len(results), "violations_total": n_violations, "scenarios_skipped_by_time_budget": skipped_budget,
             "expectation_histogram": hist, "kill_point_histogram": kill_points,
             "infrastructure_errors": errors, "model_error": model_error,
             "model_scenarios_compared": len(todo), "processes": nproc,
